@@ -13,7 +13,8 @@
 (***************************************************************************)
 EXTENDS Naturals, Sequences, FiniteSets, TLC
 
-CONSTANTS MaxEp,      \* endpoint packet IDs 1..MaxEp per direction
+CONSTANTS MinEp,      \* first endpoint packet ID: 1 (the viewers) or 0 (hippolyzer's own client endpoint)
+          MaxEp,      \* endpoint packet IDs MinEp..MaxEp per direction
           MaxInj,     \* injected wire IDs per direction (proxy packets + drop acks)
           MaxAcks,    \* acks carried by one packet (appended + PacketAck blocks)
           Tries,      \* ReliableResendInfo.tries_left (code default 10)
@@ -47,7 +48,8 @@ Range(s) == {s[i] : i \in DOMAIN s}
 RECURSIVE NthFree(_, _, _)
 NthFree(k, I, w) == IF w \in I THEN NthFree(k, I, w + 1)
                     ELSE IF k = 1 THEN w ELSE NthFree(k - 1, I, w + 1)
-Ideal(d, k) == NthFree(k, inj[d], 1)
+\* wire ID 0 can only be the endpoint's own ID 0: the proxy allocates its IDs above the highest seen, from 1
+Ideal(d, k) == IF k = 0 THEN 0 ELSE NthFree(k, inj[d], 1)
 IdealOrig(d, w) == w - Cardinality({i \in inj[d] : i < w})
 
 \* The trackers remember only the last W injected IDs of a direction.  Translation is claimed for IDs
@@ -55,6 +57,8 @@ IdealOrig(d, w) == w - Cardinality({i \in inj[d] : i < w})
 NthSmallest(S, n) == CHOOSE x \in S : Cardinality({y \in S : y <= x}) = n
 HorizonOf(I) == IF W = 0 \/ Cardinality(I) <= W THEN 0 ELSE NthSmallest(I, Cardinality(I) - W)
 Horizon(d) == HorizonOf(inj[d])
+\* horizon 0 = nothing has aged out yet (injected IDs start at 1)
+Above(w, h) == h = 0 \/ w > h
 
 \* acks carried in a packet travelling d: drop those for injected IDs, translate the rest back
 Translate(d, as) == LET r == Opp(d)
@@ -66,10 +70,11 @@ SeqOfSet(S) == LET RECURSIVE F(_)
                    F(T) == IF T = {} THEN <<>> ELSE LET m == CHOOSE x \in T : \A y \in T : x <= y
                                                     IN <<m>> \o F(T \ {m})
                IN F(S)
-AckChoices(d, n) == {SeqOfSet(T) : T \in {T \in SUBSET {a \in delivered[Opp(d)] : a > Horizon(Opp(d))} : Cardinality(T) <= n}}
+AckChoices(d, n) == {SeqOfSet(T) : T \in {T \in SUBSET {a \in delivered[Opp(d)] : Above(a, Horizon(Opp(d)))} : Cardinality(T) <= n}}
 
 Rec(d, id, name, rel, resent, acks, pa) ==
-    [dir |-> d, id |-> id, name |-> name, rel |-> rel, resent |-> resent, acks |-> acks, pa |-> pa, oldest |-> 0]
+    [dir |-> d, id |-> id, name |-> name, rel |-> rel, resent |-> resent, acks |-> acks, pa |-> pa, oldest |-> 0,
+     anyid |-> FALSE]      \* TRUE: the packet ID is the proxy's choice, not constrained
 
 Init == /\ epSent = [d \in D |-> {}] /\ epRel = [d \in D |-> {}] /\ epDropped = [d \in D |-> {}]
         /\ inj = [d \in D |-> {}] /\ base = [d \in D |-> 0] /\ fwdMap = [d \in D |-> {}]
@@ -97,8 +102,8 @@ EndpointSend(d, k, rel, kind, A1, A2, disp) ==
         T2 == Translate(d, A2)
         ackIds == Range(A1) \cup Range(A2)
     IN
-    /\ k \in 1..MaxEp
-    /\ w > Horizon(d)
+    /\ k \in MinEp..MaxEp
+    /\ Above(w, Horizon(d))
     /\ (resend \/ (k \notin epSent[d] /\ k <= Frontier(d) + 1 + Reorder))
     /\ (resend => (rel <=> k \in epRel[d]))
     /\ (kind = "pa" => (~rel /\ A2 # <<>>))
@@ -108,7 +113,7 @@ EndpointSend(d, k, rel, kind, A1, A2, disp) ==
     /\ (disp \in {"drop", "take"} /\ rel) => Cardinality(inj[r]) < MaxInj
     \* dropping a reliable packet makes the proxy inject an ack in direction r first; the carried acks
     \* must still be above the horizon that injection leaves behind
-    /\ (disp \in {"drop", "take"} /\ rel) => \A a \in ackIds : a > HorizonOf(inj[r] \cup {base[r] + 1})
+    /\ (disp \in {"drop", "take"} /\ rel) => \A a \in ackIds : Above(a, HorizonOf(inj[r] \cup {base[r] + 1}))
     /\ disp = "take" => (kind = "msg" /\ Cardinality(inj[d]) < MaxInj)
     /\ epSent' = [epSent EXCEPT ![d] = @ \cup {k}]
     /\ epRel' = [epRel EXCEPT ![d] = IF rel THEN @ \cup {k} ELSE @]
@@ -130,8 +135,8 @@ EndpointSend(d, k, rel, kind, A1, A2, disp) ==
        ELSE LET new == base[r] + 1
                 ackSender == IF rel THEN <<Rec(r, new, "pa", FALSE, FALSE, <<>>, <<k>>)>> ELSE <<>>
                 \* the appended acks of the dropped packet travel on in a PacketAck of their own;
-                \* its packet ID is the proxy's choice (id 0 = not constrained)
-                passOn == IF T1 # <<>> THEN <<Rec(d, 0, "pa", FALSE, FALSE, <<>>, T1)>> ELSE <<>>
+                \* its packet ID is the proxy's choice
+                passOn == IF T1 # <<>> THEN <<[Rec(d, 0, "pa", FALSE, FALSE, <<>>, T1) EXCEPT !.anyid = TRUE]>> ELSE <<>>
                 \* disp "take": an addon took the message (Message.take) and sends its copy on at once.  The
                 \* copy is a packet of the proxy's own: fresh ID of direction d, no acks, and if the original
                 \* was reliable it is the proxy that must now retransmit it until it is acknowledged.
@@ -161,9 +166,10 @@ StartPing(d, k, oldest) ==
         mine == {p.w : p \in {q \in pending : q.d = d}}
         newOldest == Min2(Ideal(d, oldest), MinSet(mine, Ideal(d, oldest)))
     IN
-    /\ k \in 1..MaxEp /\ k \notin epSent[d] /\ k <= Frontier(d) + 1 + Reorder
-    /\ w > Horizon(d)
-    /\ oldest \in 1..k /\ Ideal(d, oldest) > Horizon(d)
+    /\ k \in MinEp..MaxEp /\ k \notin epSent[d] /\ k <= Frontier(d) + 1 + Reorder
+    /\ Above(w, Horizon(d))
+    \* a sender with nothing unacknowledged names the ID it will use NEXT (k + 1, not sent yet)
+    /\ oldest \in MinEp..(k + 1) /\ Above(Ideal(d, oldest), Horizon(d))
     /\ epSent' = [epSent EXCEPT ![d] = @ \cup {k}]
     /\ base' = [base EXCEPT ![d] = IF w > @ THEN w ELSE @]
     /\ fwdMap' = [fwdMap EXCEPT ![d] = @ \cup {<<k, w>>}]
@@ -204,12 +210,12 @@ Tick(dt) ==
     /\ out' = ResendRecs(again)
     /\ UNCHANGED <<epSent, epRel, epDropped, inj, base, fwdMap, delivered, ackedWire, shown>>
 
-Next == \/ \E d \in D, k \in 1..MaxEp, rel \in BOOLEAN, kind \in {"msg", "pa"}, disp \in {"fwd", "drop", "take"} :
+Next == \/ \E d \in D, k \in MinEp..MaxEp, rel \in BOOLEAN, kind \in {"msg", "pa"}, disp \in {"fwd", "drop", "take"} :
              \E A \in AckChoices(d, MaxAcks) :
                 \E n \in 0..Len(A) :      \* first n appended, the rest in PacketAck blocks
                     EndpointSend(d, k, rel, kind, SubSeq(A, 1, n), SubSeq(A, n + 1, Len(A)), disp)
         \/ \E d \in D, rel \in BOOLEAN : Inject(d, rel)
-        \/ \E d \in D, k \in 1..MaxEp, o \in 1..MaxEp : StartPing(d, k, o)
+        \/ \E d \in D, k \in MinEp..MaxEp, o \in MinEp..(MaxEp + 1) : StartPing(d, k, o)
         \/ \E dt \in {1, Interval} : Tick(dt)
 
 Spec == Init /\ [][Next]_vars
